@@ -143,6 +143,51 @@ def run_destsize(st, which, src, target, level, res, info, check_model=True):
     srcb.free(); dstb.free()
     return r, sz.value, out
 
+def hcemit_lib():
+    """shared object with harness/c/hcemit.c (#includes lz4hc.c to reach the static LZ4HC_encodeSequence)"""
+    from vlib import build_lib
+    return build_lib("hcemit", wrappers=["hcemit.c"])
+
+def run_hcemit(st, rng, res, info, L, ml, offset, limit, room):
+    """one call of the real LZ4HC_encodeSequence vs the extracted model (Model.HcEmit):
+    L literals, match length ml, `room` = oend - op; exact-size ASan destination"""
+    import ctypes
+    from ctypes import c_int, byref, c_void_p
+    L4 = st["hcemit"]
+    f = L4.v_hc_encodeSequence
+    f.restype = c_int
+    f.argtypes = [c_void_p, c_int, c_int, c_void_p, c_int, c_int, c_int, c_int, c_int,
+                  ctypes.POINTER(c_int), ctypes.POINTER(c_int), ctypes.POINTER(c_int)]
+    anchor = rng.choice([0, 3, 17])
+    src = rng.randbytes(anchor + L + ml + 16)
+    op0 = rng.choice([0, 1, 9])
+    oend = op0 + room
+    # the wild copy reads up to 7 bytes beyond the literals: give the source that slack (as the parsers do: MFLIMIT)
+    srcb = Buf(len(src), data=src)
+    dstsz = oend if limit else op0 + 1 + L // 255 + 1 + L + 8 + 2 + ml // 255 + 2 + 8
+    dstb = Buf(max(dstsz, 1), fill=0xC3)
+    nop, nip, nan = c_int(0), c_int(0), c_int(0)
+    r = f(srcb.p, anchor + L, anchor, dstb.p, op0, ml, offset, 1 if limit else 0, oend, byref(nop), byref(nip), byref(nan))
+    res["evals"] += 1
+    got = dstb.bytes(nop.value - op0, op0) if nop.value >= op0 else b""
+    tail = dstb.bytes()[max(nop.value, op0):]
+    srcb.free(); dstb.free()
+    m = st["oracle"].ask("hcemit", hx(src), str(anchor + L), str(anchor), str(op0), str(ml), str(offset), "1" if limit else "0", str(oend)).split()
+    mret, mop, mhw, mlen, mmd5 = int(m[0]), int(m[1]), int(m[2]), int(m[3]), m[4]
+    bad = None
+    if mret != r:
+        bad = "return code: model %d, code %d" % (mret, r)
+    elif r == 0 and (mop != nop.value or mmd5 != md5(got)):
+        bad = "bytes/op differ: model op %d, code op %d" % (mop, nop.value)
+    elif r == 0 and (nip.value != anchor + L + ml or nan.value != nip.value):
+        bad = "ip/anchor not advanced to the end of the match"
+    if bad:
+        res["fails"].append({"status": "corr_fail", "what": "LZ4HC_encodeSequence model/code disagree: " + bad,
+                             "detail": dict(info, L=L, ml=ml, offset=offset, limit=limit, room=room)})
+    if limit and mhw > oend:
+        res["fails"].append({"status": "prop_fail", "what": "model high-water %d exceeds oend %d (theorem encodeSequence_cap contradicted?)" % (mhw, oend), "detail": info})
+    return r
+
 def new_res():
     return {"evals": 0, "fails": [], "keys": set(), "stats": collections.Counter()}
 
@@ -160,3 +205,78 @@ def key_of(*parts):
     for p in parts:
         h.update(p if isinstance(p, bytes) else str(p).encode()); h.update(b"|")
     return h.hexdigest()[:20]
+
+# ------------------------------------------------------------------ LZ4MID (HC levels 1-2) model vs code
+def midstate_lib():
+    """shared object with harness/c/hcstate.c (field access to LZ4_streamHC_t for the LZ4MID correspondence)"""
+    from vlib import build_lib
+    return build_lib("midstate", wrappers=["hcstate.c"])
+
+def parse_mid(a):
+    t = a.split()
+    if len(t) < 9 or not t[0].lstrip("-").isdigit():
+        raise RuntimeError("mid oracle: " + a[:300])
+    d = {"ret": int(t[0]), "consumed": int(t[1]), "len": int(t[2]), "md5": t[3]}
+    for kv in t[4:]:
+        if "=" in kv:
+            k, v = kv.split("=", 1); d[k] = v
+    return d
+
+def run_mid_session(st, calls, res, info, level=2):
+    """calls: list of ("fr", src, cap) = LZ4_compress_HC_extStateHC_fastReset, ("ds", src, target) = LZ4_compress_HC_destSize,
+    executed on ONE LZ4_streamHC_t and on the extracted Model.HcMidApi (oracle `mid`, session context).
+    After every call: return value, consumed, output bytes, both hash tables, end index and dirty flag must agree.
+    returns the list of (kind, src, ret, consumed, out)."""
+    import ctypes, hashlib
+    from ctypes import c_int, byref, c_void_p, c_uint, c_ulonglong
+    lib = st["midlib"]; raw = st["midraw"]; orc = st["mid"]
+    raw.v_hc_mid_tables.restype = c_int; raw.v_hc_mid_tables.argtypes = [c_void_p, c_void_p]
+    raw.v_hc_end_index.restype = c_ulonglong; raw.v_hc_end_index.argtypes = [c_void_p]
+    raw.v_hc_dirty.restype = c_int; raw.v_hc_dirty.argtypes = [c_void_p]
+    stbuf = Buf(lib.sizeofStateHC(), data=bytes(lib.sizeofStateHC()))
+    lib.initStreamHC(stbuf.p, stbuf.n)
+    orc.ask("midinit")
+    tabs = Buf(4 * 32768)
+    outs = []
+    for ci, (kind, src, cap) in enumerate(calls):
+        n = len(src)
+        srcb = Buf(n, data=src)
+        dstb = Buf(max(cap, 0), fill=0xC3)
+        sz = c_int(n)
+        if kind == "fr":
+            r = lib.compress_HC_extStateHC_fastReset(stbuf.p, srcb.p, dstb.p, n, cap, level)
+            m = parse_mid(orc.ask("midfr", hx(src), str(cap)))
+            consumed = n
+        else:
+            r = lib.compress_HC_destSize(stbuf.p, srcb.p, dstb.p, byref(sz), cap, level)
+            m = parse_mid(orc.ask("midds", hx(src), str(cap)))
+            consumed = sz.value
+        out = dstb.bytes(r) if 0 < r <= cap else b""
+        res["evals"] += 1
+        res["stats"]["mid_" + kind] += 1
+        half = raw.v_hc_mid_tables(stbuf.p, tabs.p)
+        t = tabs.bytes()
+        h4 = hashlib.md5(t[:4 * half]).hexdigest(); h8 = hashlib.md5(t[4 * half:8 * half]).hexdigest()
+        endi = raw.v_hc_end_index(stbuf.p); dirty = raw.v_hc_dirty(stbuf.p)
+        bad = None
+        if m["ret"] != r:
+            bad = "return value: model %d, code %d" % (m["ret"], r)
+        elif r > 0 and (m["md5"] != md5(out) or (kind == "ds" and m["consumed"] != consumed)):
+            bad = "output or consumed differ (code consumed=%d model=%d, code len %d model len %d)" % (consumed, m["consumed"], len(out), m["len"])
+        elif m["h4"] != h4 or m["h8"] != h8:
+            bad = "hash tables differ after the call (%s)" % ("hash4" if m["h4"] != h4 else "hash8")
+        elif int(m["end"]) != endi or int(m["dirty"]) != (1 if dirty else 0):
+            bad = "context differs: end index model %s code %d, dirty model %s code %d" % (m["end"], endi, m["dirty"], dirty)
+        elif r > 0 and int(m["hw"]) > cap and (kind == "ds" or cap < bound(n)):
+            res["fails"].append({"status": "prop_fail", "what": "LZ4MID model writes up to %s > capacity %d" % (m["hw"], cap),
+                                 "detail": dict(info, call=ci, kind=kind, n=n, cap=cap)})
+        if bad:
+            res["fails"].append({"status": "corr_fail", "what": "LZ4MID model/code disagree (call %d, %s): %s" % (ci, kind, bad),
+                                 "detail": dict(info, call=ci, kind=kind, n=n, cap=cap, level=level,
+                                                calls=[(k, s.hex() if len(s) <= 300 else "len=%d md5=%s" % (len(s), md5(s)), c) for (k, s, c) in calls[:ci + 1]])})
+            srcb.free(); dstb.free()
+            break
+        outs.append((kind, src, r, consumed, out))
+        srcb.free(); dstb.free()
+    stbuf.free(); tabs.free()
+    return outs
